@@ -107,6 +107,8 @@ def expr(e):
         if not e["args"]:
             return e["n"]
         return e["n"] + "(" + ", ".join(expr(x) for x in e["args"]) + ")"
+    if k == "ucall":
+        return e["name"] + "(" + ", ".join(expr(x) for x in e["args"]) + ")"
     if k == "raw":
         return e["text"]
     raise RenderError("unknown expr kind " + k)
@@ -209,7 +211,7 @@ def stmt(o, s, ind):
             text += " STEP " + expr(s["step"])
         o.emit(text, sid, ind)
         body(o, s["body"], ind + 2)
-        o.endrows[sid] = o.emit("NEXT" + (" " + expr(s["v"]) if s.get("nextvar") else ""), None, ind)
+        o.endrows[sid] = o.emit("NEXT" + (" " + (s.get("nextname") or expr(s["v"])) if s.get("nextvar") else ""), None, ind)
     elif k == "while":
         o.emit("WHILE " + expr(s["c"]), sid, ind)
         body(o, s["body"], ind + 2)
